@@ -6,7 +6,7 @@ each error payload, (d) exactly-one rules, (e) the capitalisation leaf predicate
 """
 import re
 
-from ..mir import Mir, Exprs, E, canon, strip_transparent, Call, natural_loops, short_path, control_deps_transitive
+from ..mir import Mir, Exprs, E, canon, strip_transparent, Call, natural_loops, short_path, control_deps_transitive, borrow_root
 from ..report import Result, finish
 from ..errdisc import check_err_discipline, is_err_result
 
@@ -419,8 +419,51 @@ def find_set_content(mir, owner, field):
             for s_ in b["stmts"]:
                 if s_["k"] == "assign" and s_["rv"]["k"] == "agg" and s_["rv"].get("adt") == owner and field in s_["rv"].get("fields", []):
                     idx = s_["rv"]["fields"].index(field)
-                    out.append((fn, Exprs(fn).operand(s_["rv"]["ops"][idx])))
+                    out.append((fn, Exprs(fn).operand(s_["rv"]["ops"][idx]), s_["rv"]["ops"][idx]))
     return out
+
+
+def inserted_kinds(mir, fn, op):
+    """kinds of the names put into a set that is built empty and filled by `insert` calls in `fn`
+    (None = unknown: another call receives the set mutably, or an inserted value has no known kind)"""
+    if op["k"] not in ("copy", "move") or op["pl"]["p"]:
+        return None
+    l = op["pl"]["l"]
+    # follow plain moves back to the local that is created by `new`
+    for _ in range(6):
+        defs = fn.defs(l)
+        if len(defs) == 1 and defs[0][0] == "assign" and defs[0][3]["rv"]["k"] == "use" and defs[0][3]["rv"]["op"]["k"] in ("copy", "move") and not defs[0][3]["rv"]["op"]["pl"]["p"]:
+            l = defs[0][3]["rv"]["op"]["pl"]["l"]
+            continue
+        break
+    defs = fn.defs(l)
+    if len(defs) != 1 or defs[0][0] == "assign":
+        return None
+    c0 = Call(fn, defs[0][1], defs[0][2])
+    if not short_path(c0.rpath or "").endswith(("HashSet::new", "BTreeSet::new", "HashSet::with_capacity", "HashSet::default", "BTreeSet::default")):
+        return None
+    ex = Exprs(fn)
+    kinds = set()
+    for c in fn.calls():
+        if c.bb == c0.bb:
+            continue
+        for ai, a in enumerate(c.args):
+            pl, _via = borrow_root(fn, a)
+            if pl is None or pl["l"] != l or a["k"] not in ("copy", "move"):
+                continue
+            if a["pl"]["l"] == l and not a["pl"]["p"]:
+                continue  # the move into the aggregate / a by-value use is not a mutation we track here
+            ty = fn.local_ty(a["pl"]["l"])["s"]
+            if not ty.startswith("&mut"):
+                continue
+            if ai == 0 and short_path(c.rpath or "").endswith(("HashSet::insert", "BTreeSet::insert")) and len(c.args) == 2:
+                k_ = name_kind_of(ex.operand(c.args[1]))
+                if k_ is None:
+                    return None
+                kinds |= k_
+            else:
+                return None
+    return kinds or None
 
 
 def check_kind(mir, stage, err_path, res):
@@ -462,8 +505,10 @@ def check_kind(mir, stage, err_path, res):
                         if se.k == "field" and se.a[2] in mir.adts:
                             srcs = find_set_content(mir, se.a[2], se.a[1])
                             ks = set()
-                            for (sf, sexpr) in srcs:
+                            for (sf, sexpr, sop) in srcs:
                                 k_ = elem_kinds(mir, sf, sexpr)
+                                if k_ is None:
+                                    k_ = inserted_kinds(mir, sf, sop)
                                 if k_ is None:
                                     ks = None
                                     break
